@@ -85,6 +85,13 @@ def desugar_pyx(src: str):
                     raise AnalysisError("pyx desugar: parameter not understood: %r" % p)
             out.append("%sdef %s(%s):" % (indent, name, ", ".join(newparams)))
             continue
+        m = re.match(r"cdef\s+(" + _CTYPE + r")\s+(\w+(?:\s*,\s*\w+)+)\s*$", stripped)
+        if m:
+            # cdef double a, b, c, d
+            for nm in [x.strip() for x in m.group(2).split(",")]:
+                ctypes[nm] = re.sub(r"\s+", " ", m.group(1))
+            out.append(indent + "pass")
+            continue
         m = re.match(r"cdef\s+(" + _CTYPE + r")\s+(\w+)\s*(=\s*(.*))?$", stripped)
         if m:
             ctypes[m.group(2)] = re.sub(r"\s+", " ", m.group(1))
